@@ -145,7 +145,7 @@ def linearise(stmts, where, delegates):
 def branch(func, selector, where):
     """Select the statements of the fast path."""
     body = func.body
-    if selector == "whole":
+    if selector in ("whole", "reduce"):
         return body
     if selector.startswith("if:"):
         want = selector[3:]
@@ -185,7 +185,7 @@ ROWS = {
     10: (MEM, "MemoryObjectSendStream", "send", "whole", {}),
     12: (MEM, "MemoryObjectReceiveStream", "receive", "whole", {}),
     14: (A, "AsyncIOBackend", "run_sync_in_worker_thread", "prefix:try:", {}),
-    18: ("src/anyio/functools.py", None, "reduce", "tail-if:not function_called", {}),
+    18: ("src/anyio/functools.py", None, "reduce", "reduce", {}),
 }
 # rows that are pure delegations to another row (checked syntactically)
 DELEGATIONS = {
@@ -214,6 +214,29 @@ def translate():
         where = f"row {row} {cls}.{fn}"
         func = find_func(tree_of(rel), cls, fn)
         stmts = branch(func, sel, where)
+        if row == 18:
+            # reduce(): `await checkpoint_if_cancelled()`; one if/elif/else chain that consumes the iterable and
+            # awaits the callback (no checkpoint call of its own inside); `await cancel_shielded_checkpoint()`;
+            # `return value`
+            body = [s for s in func.body if not is_pure_local(s)]
+            ok = (len(body) == 4
+                  and isinstance(body[0], ast.Expr) and isinstance(body[0].value, ast.Await)
+                  and call_name(body[0].value.value) == "checkpoint_if_cancelled"
+                  and isinstance(body[1], ast.If)
+                  and isinstance(body[2], ast.Expr) and isinstance(body[2].value, ast.Await)
+                  and call_name(body[2].value.value) == "cancel_shielded_checkpoint"
+                  and isinstance(body[3], ast.Return) and isinstance(body[3].value, ast.Name))
+            if not ok:
+                raise Refuse(f"{where}: expected `await checkpoint_if_cancelled(); if …: <consume> …; "
+                             f"await cancel_shielded_checkpoint(); return value`, got "
+                             f"{[ast.unparse(s)[:50] for s in body]}")
+            inner = [call_name(n) for n in ast.walk(body[1]) if isinstance(n, ast.Call)]
+            if any(n in CK for n in inner):
+                raise Refuse(f"{where}: a checkpoint call inside the consuming branch")
+            if not any(isinstance(n, ast.Await) for n in ast.walk(body[1])):
+                raise Refuse(f"{where}: the consuming branch never awaits the callback")
+            shapes[row] = ["CkIf", "Effect", "ShieldY"]
+            continue
         if row == 3:
             # checkpoint(): `await sleep(0)` is the bare yield itself
             if len(stmts) != 1 or ast.unparse(stmts[0]) != "await sleep(0)":
